@@ -89,6 +89,27 @@ claim("C07", "must-pass-through rule for the exhaustiveness check, shape of the 
       "correctness of the usefulness algorithm and of the decision-tree compiler, and their agreement with each other and with top-to-bottom matching — the core of the property — are not decided", "DESIGN.md §3 C07", "shape+flow")
 
 
+# clauses added while testing against sub-agent changes (rounds 1 and 2); kept separate so the first texts stay readable
+ADDENDA = {
+    "C01": "Also: a recursive function's parameter is hoisted as static only when every self-call passes that very parameter at its own position; under `expect`, only the tail position of a list pattern is dropped because a tail is present; recorded Vec positions are removed from the highest down.",
+    "C02": "Also: no reader of a Data integer handles the 64-bit form only and aborts on the rest; deferred Vec removals at recorded positions run from the highest position down (reversed loop or positions recorded under a reversed enumeration, receiver type confirmed on MIR).",
+    "C03": "Also: value_as_term enters read-back with a binder depth equal to the Lambda binders it builds itself.",
+    "C04": "Also (MIR, resolved callees): the plain CBOR integer form is chosen by a fallible conversion from >=128 bits into pallas' Int and the negative bignum payload is -1-n computed on big integers in both directions; serialiseData's re-encoder routes each Data constructor to its own re-encoder, writes lists indefinite unless empty and maps definite, and hands byte strings / integers to pallas' own encoders; the G1 and G2 arms of each BLS builtin unwrap the same argument kinds and raise the same errors, and multiScalarMul bounds every scalar of the whole list.",
+    "C06": "Also: close_scope assigns back exactly what open_new_scope saved (Hydrator and Environment); every lowering of a call in CodeGenerator::build wraps a non-Data argument for a Data parameter in cast_to_data (sibling agreement of 4 sites).",
+    "C07": "Also: every find-by-case on the decision tree's case matrices / relevant columns that updates on a hit creates the entry on a miss, seeded from the default rows (6 sibling sites); equality on exhaustive::Literal / Pattern is derived or free of lossy conversions.",
+    "C09": "Also: the module-constant cache is keyed by a structured (module, name) key built field by field, never by a flattened string.",
+    "C10": "Also: mkCons admits an element only when its whole type equals the list's element type (derived equality on Type), the invariant later arms discharge `unreachable!` on; no partial reader of Data integers aborts on the bignum forms.",
+    "C11": "Also: every InternKey is built from both the text and the previous unique of its inputs, unconditionally, and compared / hashed by derived impls.",
+    "C12": "Also: a schema's definition key follows every type-variable binding its content follows (sibling conditions of Reference::from_type and Annotated::do_from_type); constant folding to Data decides map-vs-list from the list's element type.",
+    "C13": "Also: tuple-index suffixes are printed with the function the lexer validates them with; the formatter omits a validator's `else` only when it is exactly what the parser synthesises; element-dropping iterator adaptors in formatter methods are enumerated and reviewed.",
+    "C15": "Also: the parser's `I <n>` and the printer convert Data big integers through from/to_pallas_bigint, whose -1-n convention is checked on MIR in both directions.",
+}
+for _pid, _t in ADDENDA.items():
+    CLAIMS[_pid]["text"] = CLAIMS[_pid]["text"].rstrip() + " " + _t
+    if _pid in ("C01", "C02", "C04", "C15") and "flow" not in CLAIMS[_pid]["engine"]:
+        CLAIMS[_pid]["engine"] = "shape+flow"
+
+
 def main():
     props = [json.loads(l) for l in open(os.path.join(HERE, "properties.jsonl"))]
     checks = []
